@@ -1,6 +1,8 @@
 package main
 
 import (
+	"fmt"
+	"go/token"
 	"go/types"
 	"sort"
 
@@ -14,6 +16,7 @@ func runC13(c *Ctx, r *Report) {
 	r.Rule("C13.R4", "arguments are quoted, not evaluated: during expansion only the macro body is evaluated; call arguments flow only into object.Quote values")
 	r.Rule("C13.R5", "unquote results are well-formed nodes: boxed in the form the visitors match, and a failed conversion is tested before it enters the tree (shared with C07.R5)")
 	r.Rule("C13.R6", "each expansion binds its parameters in an environment allocated for that expansion, and macro bodies are evaluated by a fully initialised state (shared with C07.R7)")
+	r.Rule("C13.R7", "the definition sweep examines every statement: in the loop of DefineMacros that removes definitions from the program, an iteration that deletes the element at the loop index (append(s[:i], s[i+1:]...) or slices.Delete(s, i, i+1)) reaches the next loop test with the index unchanged; advancing it skips the statement that moved into place")
 	r.Rule("C02.R2", "(shared) the expanded program prints and re-parses like the hand-substituted one only if operator printers honour precedence")
 
 	modify := c.SSAFn(c.Fn("ast", "Modify"))
@@ -323,6 +326,9 @@ func runC13(c *Ctx, r *Report) {
 			}
 		}
 	}
+	// ---- R7 ----
+	c.checkDeleteWhileIterating(r, "C13.R7", c.SSAFn(c.Fn("eval", "State.DefineMacros")))
+
 	// shared C02.R2
 	sub := NewReport("C02", r.Tier, c)
 	runC02(c, sub)
@@ -344,4 +350,122 @@ func init() {
 		assume:  []string{"call sites are found by the bottom-up traversal of Modify (its recursion order is not checked)", "hygiene is not part of the property"},
 		run:     runC13,
 	})
+}
+
+// checkDeleteWhileIterating: see C13.R7. For every deletion of the element at loop index i inside fn,
+// follow every path back to the loop header and resolve what the index phi receives.
+func (c *Ctx) checkDeleteWhileIterating(r *Report, rule string, fn *ssa.Function) {
+	fname := ssaFuncName(fn)
+	plusOne := func(v ssa.Value, of ssa.Value) bool {
+		bin, ok := v.(*ssa.BinOp)
+		if !ok || bin.Op != token.ADD || bin.X != of {
+			return false
+		}
+		k, ok := constInt(bin.Y)
+		return ok && k == 1
+	}
+	deletionIndex := func(in ssa.Instruction) ssa.Value {
+		call, ok := in.(*ssa.Call)
+		if !ok {
+			return nil
+		}
+		args := call.Common().Args
+		if bi, ok := call.Common().Value.(*ssa.Builtin); ok && bi.Name() == "append" && len(args) == 2 {
+			a, ok1 := args[0].(*ssa.Slice)
+			b, ok2 := args[1].(*ssa.Slice)
+			if ok1 && ok2 && a.Low == nil && a.High != nil && b.High == nil && b.Low != nil && plusOne(b.Low, a.High) {
+				return a.High
+			}
+			return nil
+		}
+		if obj := calleeObj(call); obj != nil && obj.Pkg() != nil && obj.Pkg().Path() == "slices" && obj.Name() == "Delete" && len(args) == 3 && plusOne(args[2], args[1]) {
+			return args[1]
+		}
+		return nil
+	}
+	n := 0
+	eachInstr(fn, func(in ssa.Instruction) {
+		idx := deletionIndex(in)
+		if idx == nil {
+			return
+		}
+		n++
+		desc := fmt.Sprintf("deletion #%d at the loop index keeps the index for the next test", n)
+		phi, ok := idx.(*ssa.Phi)
+		if !ok {
+			r.Abstain(rule, fname, desc, c.Pos(in.Pos()), "the deleted position is not a loop index phi: "+idx.String())
+			return
+		}
+		hdr := phi.Block()
+		var bad []string
+		var good int
+		seen := map[*ssa.BasicBlock]bool{}
+		var walk func(b *ssa.BasicBlock, asg map[*ssa.Phi]ssa.Value, trail []*ssa.BasicBlock)
+		walk = func(b *ssa.BasicBlock, asg map[*ssa.Phi]ssa.Value, trail []*ssa.BasicBlock) {
+			for _, s := range b.Succs {
+				// edge b -> s: fix the phis of s
+				j := -1
+				for k, p := range s.Preds {
+					if p == b {
+						j = k
+					}
+				}
+				resolve := func(v ssa.Value) ssa.Value {
+					for k := 0; k < 8; k++ {
+						p, ok := v.(*ssa.Phi)
+						if !ok {
+							return v
+						}
+						nv, ok := asg[p]
+						if !ok {
+							return v
+						}
+						v = nv
+					}
+					return v
+				}
+				if s == hdr {
+					v := resolve(phi.Edges[j])
+					switch {
+					case v == ssa.Value(phi):
+						good++
+					case plusOne(v, phi):
+						bad = append(bad, c.tracePath(&pathResult{trace: append(append([]*ssa.BasicBlock{}, trail...), b)})...)
+					default:
+						bad = append(bad, "the index becomes "+v.String()+" (not understood)")
+					}
+					continue
+				}
+				if seen[s] || !hdr.Dominates(s) {
+					continue // left the loop, or already explored
+				}
+				seen[s] = true
+				nasg := map[*ssa.Phi]ssa.Value{}
+				for p, v := range asg {
+					nasg[p] = v
+				}
+				for _, x := range s.Instrs {
+					p, ok := x.(*ssa.Phi)
+					if !ok {
+						break
+					}
+					nasg[p] = resolve(p.Edges[j])
+				}
+				walk(s, nasg, append(trail, b))
+			}
+		}
+		walk(in.Block(), map[*ssa.Phi]ssa.Value{}, nil)
+		switch {
+		case len(bad) > 0:
+			r.Fail(rule, fname, desc, c.Pos(in.Pos()), "after removing element i the loop index is advanced: the element that moved into position i is never examined (two consecutive macro definitions: the second stays in the program undefined)", bad...)
+		case good == 0:
+			r.Abstain(rule, fname, desc, c.Pos(in.Pos()), "no path from the deletion back to the loop test was found")
+		default:
+			r.Ok(rule, fname, desc, c.Pos(in.Pos()))
+		}
+	})
+	if n == 0 {
+		r.Undecided("%s: no deletion at a loop index found in %s", rule, fname)
+	}
+	r.Floor(rule, 1)
 }
